@@ -337,3 +337,66 @@ class Contracts:
                 out.append(r)
             self.records[k] = []
         return out
+
+
+# --------------------------------------------------------------------------
+# M-fault : "the file vanishes right after its K-th touch" (source-free failpoint on pathlib)
+
+
+class TouchFault:
+    """While active, counts pathlib.Path touches (is_file, is_dir, is_symlink, exists, stat, lstat, open) of one victim path and
+    removes the victim (or turns it into a directory) right after the K-th of them."""
+
+    METHODS = ("is_file", "is_dir", "is_symlink", "exists", "stat", "lstat", "open")
+
+    def __init__(self, victim, k, becomes_dir=False):
+        self.victim = os.path.abspath(str(victim))
+        self.k = k
+        self.becomes_dir = becomes_dir
+        self.count = 0
+        self.fired = False
+        self._orig = {}
+
+    def _wrap(self, name):
+        import pathlib
+
+        orig = getattr(pathlib.Path, name)
+        fault = self
+
+        def wrapper(self_, *a, **kw):
+            hit = False
+            try:
+                hit = os.path.abspath(str(self_)) == fault.victim
+            except Exception:
+                pass
+            try:
+                return orig(self_, *a, **kw)
+            finally:
+                if hit and not fault.fired:
+                    fault.count += 1
+                    if fault.count >= fault.k:
+                        fault.fired = True
+                        try:
+                            os.unlink(fault.victim)
+                            if fault.becomes_dir:
+                                os.mkdir(fault.victim)
+                        except OSError:
+                            pass
+
+        return orig, wrapper
+
+    def __enter__(self):
+        import pathlib
+
+        for name in self.METHODS:
+            orig, wrapper = self._wrap(name)
+            self._orig[name] = orig
+            setattr(pathlib.Path, name, wrapper)
+        return self
+
+    def __exit__(self, *a):
+        import pathlib
+
+        for name, orig in self._orig.items():
+            setattr(pathlib.Path, name, orig)
+        return False
